@@ -1,6 +1,6 @@
 import ScenicModel.Props.C14Base
 import ScenicModel.Props.C14Destroy
-/-! C14 side condition (finding `cleanup-aborted:sim_destroy` while it fails):
+/-! C14 side condition (repaired by fc314756; regression program `destroy-failure`):
     the statements of the `finally` block after `self.destroy()` run even if it raises. -/
 namespace Scenic.C14
 open Scenic.Overrides Scenic.Gen
